@@ -22,12 +22,121 @@ def shift_term(term, offset):
     return PLACE.sub(lambda m: "$%d" % (int(m.group(1)) + offset), term)
 
 
+# partial evaluation after composition (set by grammar.load): FN_TERM(name, nargs) -> the term a crate-local function
+# builds from its arguments $0..$n (or None)
+FN_TERM = None
+
+
+def _split_top(inner):
+    out, depth, cur, q = [], 0, "", None
+    i = 0
+    while i < len(inner):
+        ch = inner[i]
+        if q:
+            cur += ch
+            if ch == "\\" and i + 1 < len(inner):
+                cur += inner[i + 1]
+                i += 1
+            elif ch == q:
+                q = None
+        elif ch in "'\"":
+            q = ch
+            cur += ch
+        elif ch in "([{":
+            depth += 1
+            cur += ch
+        elif ch in ")]}":
+            depth -= 1
+            cur += ch
+        elif ch == "," and depth == 0:
+            out.append(cur.strip())
+            cur = ""
+        else:
+            cur += ch
+        i += 1
+    if cur.strip():
+        out.append(cur.strip())
+    return out
+
+
+def _close(text, open_at):
+    """index of the bracket closing the one at `open_at` (quotes respected)"""
+    depth, q = 0, None
+    i = open_at
+    while i < len(text):
+        ch = text[i]
+        if q:
+            if ch == "\\":
+                i += 1
+            elif ch == q:
+                q = None
+        elif ch in "'\"":
+            q = ch
+        elif ch in "([{":
+            depth += 1
+        elif ch in ")]}":
+            depth -= 1
+            if depth == 0:
+                return i
+        i += 1
+    return -1
+
+
+def partial_eval(term):
+    """(1) a function value that became known by composition is applied: `apply::(fn F, a, b)` -> the term F builds;
+    (2) a value-dependent action whose conditions became decidable (`'Int' is Int`) is reduced to the outcome taken"""
+    import ast
+    guard = 0
+    while "apply::(fn " in term and FN_TERM is not None and guard < 50:
+        guard += 1
+        a0 = term.index("apply::(fn ")
+        end = _close(term, a0 + len("apply::"))
+        if end < 0:
+            break
+        parts = _split_top(term[a0 + len("apply::("):end])
+        name = parts[0][3:]
+        t_ = FN_TERM(name, len(parts) - 1)
+        if t_ is None:
+            break
+        term = term[:a0] + subst_term(t_, {j: parts[j + 1] for j in range(len(parts) - 1)}) + term[end + 1:]
+    guard = 0
+    while "<value-dependent: [" in term and guard < 50:
+        guard += 1
+        a0 = term.index("<value-dependent: [")
+        lst = a0 + len("<value-dependent: ")
+        end = _close(term, lst)
+        if end < 0 or term[end + 1:end + 2] != ">":
+            break
+        try:
+            outs = ast.literal_eval(term[lst:end + 1])
+        except (ValueError, SyntaxError):
+            break
+        keep = []
+        undecided = False
+        for conds, t_ in outs:
+            verdict = True
+            for subj, rel in conds:
+                if rel.startswith("is ") and re.fullmatch(r"[A-Z]\w*", subj):
+                    if subj != rel[3:]:
+                        verdict = False
+                else:
+                    undecided = True
+            if verdict:
+                keep.append((conds, t_))
+        if undecided or len(keep) != 1:
+            break
+        term = term[:a0] + keep[0][1] + term[end + 2:]
+    return term
+
+
 def simplify(term):
     prev = None
     while prev != term:
         prev = term
         term = term.replace("[] ++ ", "")
         term = re.sub(r" \+\+ \[\]", "", term)
+        if "apply::(fn " in term or "<value-dependent: [" in term:
+            term = partial_eval(term)
     return term
 
 
